@@ -13,24 +13,24 @@ import (
 type typesPackage = types.Package
 
 type oblEvidence struct {
-	Name   string  `json:"name"`
-	Kind   string  `json:"kind"`
-	Func   string  `json:"function"`
+	Name   string   `json:"name"`
+	Kind   string   `json:"kind"`
+	Func   string   `json:"function"`
 	Tags   []string `json:"tags,omitempty"`
-	Status string  `json:"status"`
-	Solver string  `json:"solver"`
-	TimeS  float64 `json:"time_s"`
-	Bytes  int     `json:"smt_bytes"`
-	Clause string  `json:"clause,omitempty"`
+	Status string   `json:"status"`
+	Solver string   `json:"solver"`
+	TimeS  float64  `json:"time_s"`
+	Bytes  int      `json:"smt_bytes"`
+	Clause string   `json:"clause,omitempty"`
 }
 
 type funcEvidence struct {
-	Name     string `json:"name"`
-	File     string `json:"file"`
-	Lines    string `json:"lines"`
-	SrcHash  string `json:"source_sha1_prefix"`
-	Instrs   int    `json:"ssa_instructions"`
-	Trusted  bool   `json:"contract_assumed_not_verified,omitempty"`
+	Name    string `json:"name"`
+	File    string `json:"file"`
+	Lines   string `json:"lines"`
+	SrcHash string `json:"source_sha1_prefix"`
+	Instrs  int    `json:"ssa_instructions"`
+	Trusted bool   `json:"contract_assumed_not_verified,omitempty"`
 }
 
 func writeEvidence(P, tier string, seed int, eng *Engine, cone []string, results map[string]*FuncResult, lemmas []*FuncResult, sres []*SolveResult, pc PropConfig, wall float64, violations int, undecided []string) {
@@ -69,12 +69,12 @@ func writeEvidence(P, tier string, seed int, eng *Engine, cone []string, results
 	var funcs []funcEvidence
 	assume := map[string]bool{}
 	trusted := map[string]bool{
-		"go/packages + go/types + go/ssa (golang.org/x/tools v0.29.0): SSA in NaiveForm is taken as the meaning of the source":                true,
+		"go/packages + go/types + go/ssa (golang.org/x/tools v0.29.0): SSA in NaiveForm is taken as the meaning of the source":                                   true,
 		"hv's SSA->SMT translation (bit-vector integers, IEEE-754 binary64 via SMT FloatingPoint with RNE, field-indexed heap, maps as (presence,value) arrays)": true,
-		"SMT solvers z3 4.8.12, z3 5.1.0 (z3-new), cvc5 1.0.x: an obligation counts as discharged when the first output line of a solver is unsat": true,
-		"amd64 semantics of float64->int conversion (cvttsd2si: NaN/out-of-range -> 0x8000000000000000)":                                         true,
-		"partial correctness: postconditions are proved for normal returns; termination only where stated":                                       true,
-		"induction over the event history (invariant established by NewDevice and preserved by every step) is a meta-argument, not machine-checked": true,
+		"SMT solvers z3 4.8.12, z3 5.1.0 (z3-new), cvc5 1.0.x: an obligation counts as discharged when the first output line of a solver is unsat":               true,
+		"amd64 semantics of float64->int conversion (cvttsd2si: NaN/out-of-range -> 0x8000000000000000)":                                                         true,
+		"partial correctness: postconditions are proved for normal returns; termination only where stated":                                                       true,
+		"induction over the event history (invariant established by NewDevice and preserved by every step) is a meta-argument, not machine-checked":              true,
 	}
 	for _, k := range cone {
 		fr := results[k]
@@ -144,9 +144,9 @@ func writeEvidence(P, tier string, seed int, eng *Engine, cone []string, results
 		"wall_s":      wall,
 		"violations":  violations,
 	}
-	os.MkdirAll(filepath.Join(verifRoot(), "evidence"), 0o755)
+	os.MkdirAll(filepath.Join(outRoot(), "evidence"), 0o755)
 	data, _ := json.MarshalIndent(ev, "", " ")
-	os.WriteFile(filepath.Join(verifRoot(), "evidence", P+".json"), data, 0o644)
+	os.WriteFile(filepath.Join(outRoot(), "evidence", P+".json"), data, 0o644)
 }
 
 func truncate(s string, n int) string {
@@ -159,26 +159,26 @@ func truncate(s string, n int) string {
 // ---- replay files
 
 type ReplayFile struct {
-	Property    string            `json:"property"`
-	Obligation  string            `json:"obligation"`
-	Kind        string            `json:"kind"`
-	Function    string            `json:"function"`
-	Clause      string            `json:"clause"`
-	Position    string            `json:"position"`
-	Tags        []string          `json:"tags"`
-	Status      string            `json:"status"`
-	Solver      string            `json:"solver"`
-	SolverRaw   string            `json:"solver_output"`
-	Model       map[string]string `json:"model,omitempty"`
-	Replayed    bool              `json:"replayed_on_real_code"`
-	ReplayNote  string            `json:"replay_note"`
-	ReplayTest  string            `json:"replay_test_source,omitempty"`
-	ReplayPkg   string            `json:"replay_package,omitempty"`
-	ReplayOut   string            `json:"replay_output,omitempty"`
+	Property   string            `json:"property"`
+	Obligation string            `json:"obligation"`
+	Kind       string            `json:"kind"`
+	Function   string            `json:"function"`
+	Clause     string            `json:"clause"`
+	Position   string            `json:"position"`
+	Tags       []string          `json:"tags"`
+	Status     string            `json:"status"`
+	Solver     string            `json:"solver"`
+	SolverRaw  string            `json:"solver_output"`
+	Model      map[string]string `json:"model,omitempty"`
+	Replayed   bool              `json:"replayed_on_real_code"`
+	ReplayNote string            `json:"replay_note"`
+	ReplayTest string            `json:"replay_test_source,omitempty"`
+	ReplayPkg  string            `json:"replay_package,omitempty"`
+	ReplayOut  string            `json:"replay_output,omitempty"`
 }
 
 func writeReplay(P string, r *SolveResult, eng *Engine) string {
-	dir := filepath.Join(verifRoot(), "replays", P)
+	dir := filepath.Join(outRoot(), "replays", P)
 	os.MkdirAll(dir, 0o755)
 	path := filepath.Join(dir, sanitize(r.Obl.Name)+".replay.json")
 	rf := ReplayFile{Property: P, Obligation: r.Obl.Name, Kind: r.Obl.Kind, Function: r.Obl.Func, Clause: r.Obl.Src, Position: r.Obl.Pos, Tags: r.Obl.Tags,
